@@ -948,8 +948,9 @@ def run(ctx):
 
     thorough = ctx.tier == "thorough"
     more = bool(ctx.broken)
-    n_random = (240 if thorough else 30) * (3 if more else 2) // 2
-    fixed_archs = [a[0] for a in ARCHS] if (thorough or more) else [ARCHS[ctx.seed % len(ARCHS)][0]]
+    n_random = (500 if thorough else 30) * (3 if more else 2) // 2
+    rot = [ARCHS[(ctx.seed + j) % len(ARCHS)][0] for j in range(len(ARCHS))]
+    fixed_archs = rot if thorough else rot[:2] if more else rot[:1]
     # the other models get the core of the fixed set through the random histories; the quick tier
     # rotates the model of the fixed set with the seed
     plan = make_plan(ctx, shared, n_random, 14, fixed_archs)
